@@ -186,6 +186,25 @@ fn run_once(job: &Job) -> String {
             let res = svgdx::transform_stream(&mut r, &mut w, &job.cfg);
             (Some(res.map(|_| w)), None)
         }
+        // the stream API into a sink that accepts only a few bytes per write() call, as a pipe or a line-buffered
+        // stdout may: a conforming Write implementation, so everything must still arrive
+        "streamshort" => {
+            struct Short(Vec<u8>);
+            impl std::io::Write for Short {
+                fn write(&mut self, buf: &[u8]) -> std::io::Result<usize> {
+                    let n = buf.len().min(7);
+                    self.0.extend_from_slice(&buf[..n]);
+                    Ok(n)
+                }
+                fn flush(&mut self) -> std::io::Result<()> {
+                    Ok(())
+                }
+            }
+            let mut r = std::io::Cursor::new(&job.input[..]);
+            let mut w = Short(Vec::new());
+            let res = svgdx::transform_stream(&mut r, &mut w, &job.cfg);
+            (Some(res.map(|_| w.0)), None)
+        }
         _ => {
             let (res, probe) = verif::transform_probe(&job.input, &job.cfg);
             (Some(res), Some(probe))
